@@ -366,8 +366,7 @@ def main():
             "quick_cmd": "bin/check %s --tier quick" % pid,
             "thorough_cmd": "bin/check %s --tier thorough" % pid,
             "evidence_file": "/verif/evidence/%s.json" % pid,
-            "replay_cmd_template": "bin/check %s --tier quick  # see {path}"
-            % pid,
+            "replay_cmd_template": "bin/check %s --replay {path}" % pid,
             "engine": "coq-proof+correspondence",
             "level_claimed": {"category": "proof", "text": c["text"],
                               "design_ref": c["design"]},
